@@ -791,7 +791,8 @@ func init() {
 
 // dns.Msg.Unpack: header-only contract.  The 12-byte header is decoded per RFC 1035
 // (ID, flag bits, opcode, rcode); section contents are not decoded (harness payloads are
-// header-only messages, for which the real function yields the same result).
+// header-only messages - a header with zero section counts, possibly followed by bytes the
+// real function ignores - for which the real function yields the same result on a fresh Msg).
 func init() {
 	reg("(*github.com/miekg/dns.Msg).Unpack", simple(func(st *State, a []Value) Value {
 		tt := st.tt
@@ -800,9 +801,8 @@ func init() {
 		if st.branch(tt.Cmp(OpULt, b.Len, tt.Const(12, 64))) {
 			return st.opaqueError("dns: overflow unpacking header")
 		}
-		if st.branch(tt.Not(tt.Eq(b.Len, tt.Const(12, 64)))) {
-			panic(unsupported("dns.Msg.Unpack of a message with sections (only header-only payloads are modelled)"))
-		}
+		// bytes after the header are ignored by the real function when all section counts are
+		// zero (checked below); messages with sections are not modelled
 		arr := st.arrayAt(b.Arr)
 		at := func(i int) *Term { return st.sliceElem(arr, b.Off, i).(*Term) }
 		set := func(name string, v Value) { st.storeNoRace(p.sub(st.fieldIndex(p, "MsgHdr")).sub(st.hdrField(p, name)), v) }
